@@ -15,53 +15,54 @@ import (
 )
 
 type Clause struct {
-	Kind  string // requires ensures panics modifies invariant assert using ...
-	Text  string
-	Name  string   // label (assert@, lemma use)
-	Props []string // property ids served
-	Expr  ast.Expr // parsed (for expression clauses)
-	Exprs []ast.Expr
-	Loop  int
-	Line  string
-	After string // cut/assert position: variable name
-	AfterN int
+	Kind     string // requires ensures panics modifies invariant assert using ...
+	Text     string
+	Name     string   // label (assert@, lemma use)
+	Props    []string // property ids served
+	Expr     ast.Expr // parsed (for expression clauses)
+	Exprs    []ast.Expr
+	Loop     int
+	Line     string
+	After    string // cut/assert position: variable name
+	AfterN   int
 	Guard    ast.Expr   // cut/assert: the clause applies only where this condition is known to hold
+	From     []string   // assert: labels of earlier clauses whose facts suffice (proof hint: a small query is tried first)
 	Abstract []ast.Expr // cut/assert: objects whose contents are abstracted (fresh) once the lemma is proved
 }
 
 type Contract struct {
-	Func     string // key: package-relative SSA name, e.g. (*Element).Multiply
-	Pkg      string
-	Props    []string
-	Mode     string // int | bv
-	Requires []*Clause
-	Ensures  []*Clause
-	Proves   []*Clause // proved at the function's exits but not exported to callers
-	Panics   []*Clause // panics iff (disjunction)
-	Modifies []*Clause
-	Loops    map[int]*LoopSpec
-	Asserts  []*Clause // cut points
-	Splits   []*Clause
-	Using    []*Clause
-	Inline   bool
-	Trusted  string // non-empty: assumed contract (reason)
-	Aliasing string // "none" disables alias partitions, "all" default
-	NIA      bool
-	Pure     bool
-	CT       bool              // the function is under a secret-independence contract (C17)
-	Labels   map[string]string // C17 secrecy labels: name -> secret|public
-	Declass  []*Clause
-	NoFrame  bool
-	Timeout  int
-	BoundedChecks []string // harness names of bounded execution stand-ins (trusted contracts)
-	Bounded  []string // stated bounds (reported in the evidence)
-	Options  map[string]bool // engine options for the verification of this function (e.g. digits)
-	Source   string
-	Results  []string // result names override
-	Fresh    []*Clause
-	Hints    []*Clause
-	NoAlias  [][]string      // groups of parameters that callers must not alias with each other
-	Weak     map[string]bool // parameters whose type invariants are neither assumed nor required
+	Func          string // key: package-relative SSA name, e.g. (*Element).Multiply
+	Pkg           string
+	Props         []string
+	Mode          string // int | bv
+	Requires      []*Clause
+	Ensures       []*Clause
+	Proves        []*Clause // proved at the function's exits but not exported to callers
+	Panics        []*Clause // panics iff (disjunction)
+	Modifies      []*Clause
+	Loops         map[int]*LoopSpec
+	Asserts       []*Clause // cut points
+	Splits        []*Clause
+	Using         []*Clause
+	Inline        bool
+	Trusted       string // non-empty: assumed contract (reason)
+	Aliasing      string // "none" disables alias partitions, "all" default
+	NIA           bool
+	Pure          bool
+	CT            bool              // the function is under a secret-independence contract (C17)
+	Labels        map[string]string // C17 secrecy labels: name -> secret|public
+	Declass       []*Clause
+	NoFrame       bool
+	Timeout       int
+	BoundedChecks []string        // harness names of bounded execution stand-ins (trusted contracts)
+	Bounded       []string        // stated bounds (reported in the evidence)
+	Options       map[string]bool // engine options for the verification of this function (e.g. digits)
+	Source        string
+	Results       []string // result names override
+	Fresh         []*Clause
+	Hints         []*Clause
+	NoAlias       [][]string      // groups of parameters that callers must not alias with each other
+	Weak          map[string]bool // parameters whose type invariants are neither assumed nor required
 }
 
 type LoopSpec struct {
@@ -92,10 +93,10 @@ type LemmaParam struct {
 }
 
 type GlobalSpec struct {
-	Name    string
-	Pkg     string
-	Facts   []*Clause
-	Proof   string
+	Name  string
+	Pkg   string
+	Facts []*Clause
+	Proof string
 }
 
 type Define struct {
@@ -512,6 +513,15 @@ func (db *SpecDB) loadFile(path string, pkgPath string, marker bool) error {
 					return err
 				}
 				c.Name = strings.TrimSpace(name)
+				// optional proof hint: label[@pos] from(l1, l2): the facts introduced by these earlier clauses suffice
+				if head, fr, ok := strings.Cut(c.Name, " from("); ok {
+					c.Name = strings.TrimSpace(head)
+					lst, tail, _ := strings.Cut(fr, ")")
+					for _, l := range splitList(lst) {
+						c.From = append(c.From, strings.TrimSpace(l))
+					}
+					c.Name += tail
+				}
 				// optional abstraction list: label[@pos] abstract(x, y)
 				if head, abs, ok := strings.Cut(c.Name, " abstract("); ok {
 					c.Name = strings.TrimSpace(head)
